@@ -3,7 +3,7 @@ import gen
 import msggen
 
 QUICK = ["msg1005", "msg1006", "msg1004", "msg1012", "msg1013", "msg1017", "msg1019", "msg1023", "msg1033",
-         "msg1057", "msg1059", "msg1065", "msg1230", "msg1042", "msg1300", "msg1045"]
+         "msg1057", "msg1230", "msg1042", "msg1300", "msg1045"]
 QUICK_MSM = ["msg1071", "msg1075", "msg1087"]
 
 
